@@ -45,7 +45,16 @@ func c14Yield() {
 	}
 }
 
+// c14Quiet: in every other batch the harness itself does nothing that synchronises the
+// goroutines it starts (no shared counters, no yield hook). Atomic counters order
+// the executions they count, and a happens-before race detector does not report two
+// accesses that the harness has ordered by accident.
+var c14Quiet bool
+
 func c14Enter() {
+	if c14Quiet {
+		return
+	}
 	a := atomic.AddInt64(&c14Active, 1)
 	for {
 		m := atomic.LoadInt64(&c14MaxOver)
@@ -54,7 +63,12 @@ func c14Enter() {
 		}
 	}
 }
-func c14Leave() { atomic.AddInt64(&c14Active, -1) }
+func c14Leave() {
+	if c14Quiet {
+		return
+	}
+	atomic.AddInt64(&c14Active, -1)
+}
 
 type c14Obs struct{ out, err, trace string }
 
@@ -85,8 +99,10 @@ func c14Child(parent *plush.Context, env *progEnv) *plush.Context {
 }
 
 func c14W1(b *core.B, r *core.Rng, nProg int) {
-	plush.VerifSetYield(c14Yield)
-	defer plush.VerifSetYield(nil)
+	if !c14Quiet {
+		plush.VerifSetYield(c14Yield)
+		defer plush.VerifSetYield(nil)
+	}
 	fps := map[uint64]bool{}
 	for pi := 0; pi < nProg; pi++ {
 		salt := fmt.Sprintf("|u%d_%d_%d", b.Seed, b.Batch, pi)
@@ -639,6 +655,10 @@ func c14Run(b *core.B) {
 	if b.Tier == core.Thorough {
 		scale = 4
 	}
+	c14Quiet = (b.Batch/5)%2 == 1
+	if c14Quiet {
+		b.Count("batches-without-harness-synchronisation")
+	}
 	switch b.Batch % 5 {
 	case 4:
 		c14W4(b, r, 40*scale)
@@ -660,7 +680,7 @@ func init() {
 	core.Register(&core.Prop{
 		ID:      "C14",
 		Level:   "exploration",
-		Rule:    "worker processes built with -race (and -tags verif), each sub-workload in its own child process, repeated 5x (quick) / 30x (thorough) because race reports vary from run to run. W1: one parsed template from the shared generator (no mutation of shared data; every fourth one a fresh Clone nobody has executed) executed by G in {2,4,8,16,32} goroutines x 3 repetitions, with own root contexts and with child contexts of one shared parent, hook H3 yielding at statement boundaries under a seeded chooser; every result (output, error, side-effect trace) compared with the sequential result. W2: CacheEnabled=true, 4-32 goroutines mixing Render / Parse+Exec / CacheSet+Clone / cold texts over 6 templates, results compared with sequential ones. W4: the layout pattern - per goroutine one execution declaring a contentFor block and a later execution of another template replaying it with contentOf on the same child context of a shared parent, or the block declared once in the shared parent and replayed with per-execution data from its children, 4-32 goroutines. W3: 2-16 goroutines doing Set (unique values) / Value / Has on one context and through its child and grandchild plus New() storms, few keys; in half of the rounds every call is recorded at the client boundary with ticks from one atomic counter and the history (<= 400 operations) is checked for linearizability against a per-key register model with porcupine (timeout -> inconclusive). Oracle for all: every 'WARNING: DATA RACE' block of the process' race log whose innermost frame of either access is plush code is a violation 'race:<f>|<g>'. Non-trivial = a template / round that ran with >= 2 goroutines; evidence reports the maximum number of overlapping Exec calls and the number of distinct interleaving fingerprints observed.",
+		Rule:    "worker processes built with -race (and -tags verif), each sub-workload in its own child process, repeated 5x (quick) / 30x (thorough) because race reports vary from run to run. W1: one parsed template from the shared generator (no mutation of shared data; every fourth one a fresh Clone nobody has executed) executed by G in {2,4,8,16,32} goroutines x 3 repetitions, with own root contexts and with child contexts of one shared parent, hook H3 yielding at statement boundaries under a seeded chooser (in every other repetition the harness keeps quiet instead: no yield hook and no shared counters, whose atomics would order the executions and hide races from a happens-before detector); every result (output, error, side-effect trace) compared with the sequential result. W2: CacheEnabled=true, 4-32 goroutines mixing Render / Parse+Exec / CacheSet+Clone / cold texts over 6 templates, results compared with sequential ones. W4: the layout pattern - per goroutine one execution declaring a contentFor block and a later execution of another template replaying it with contentOf on the same child context of a shared parent, or the block declared once in the shared parent and replayed with per-execution data from its children, 4-32 goroutines. W3: 2-16 goroutines doing Set (unique values) / Value / Has on one context and through its child and grandchild plus New() storms, few keys; in half of the rounds every call is recorded at the client boundary with ticks from one atomic counter and the history (<= 400 operations) is checked for linearizability against a per-key register model with porcupine (timeout -> inconclusive). Oracle for all: every 'WARNING: DATA RACE' block of the process' race log whose innermost frame of either access is plush code is a violation 'race:<f>|<g>'. Non-trivial = a template / round that ran with >= 2 goroutines; evidence reports the maximum number of overlapping Exec calls and the number of distinct interleaving fingerprints observed.",
 		Assume:  []string{"a clean run means no race on the interleavings observed, not race freedom", "templates do not mutate data reachable from a shared parent (that would be a user-level race)"},
 		Batches: batchesQT(25, 150),
 		Run:     c14Run,
